@@ -10,14 +10,13 @@ use circular_buffer::CircularBuffer;
 use elem::{Elem, Tracked, Zst};
 use ledger::*;
 use ops::{check_views, parse_u64, push_window, run_op, Fam, OpRes};
-use std::io::{BufRead, BufWriter, StdinLock, StdoutLock, Write};
+use std::io::{BufRead, StdinLock, Write};
 
 #[global_allocator]
 static ALLOC: CountingAlloc = CountingAlloc;
 
 struct Io {
     inp: StdinLock<'static>,
-    out: BufWriter<StdoutLock<'static>>,
     fam: Fam,
 }
 
@@ -101,7 +100,7 @@ fn run_case<const N: usize, T: Elem>(io: &mut Io) -> Next {
                 break Next::Case(n, kind);
             }
             Some(Err(())) => {
-                let _ = io.out.write_all(b"bad-op\n");
+                let _ = out().write_all(b"bad-op\n");
                 continue;
             }
             None => {}
@@ -109,7 +108,7 @@ fn run_case<const N: usize, T: Elem>(io: &mut Io) -> Next {
         let faults = match parse_faults(&all) {
             Some(f) => f,
             None => {
-                let _ = io.out.write_all(b"bad-op\n");
+                let _ = out().write_all(b"bad-op\n");
                 continue;
             }
         };
@@ -123,14 +122,14 @@ fn run_case<const N: usize, T: Elem>(io: &mut Io) -> Next {
 
         match res {
             OpRes::Bare => {
-                let _ = io.out.write_all(b"bad-op\n");
+                let _ = out().write_all(b"bad-op\n");
             }
             OpRes::Line => {
                 let (start, size, base) = buf.verif_raw();
                 window.clear();
                 push_window(&mut window, base as *const T, N, start, size);
                 // the events must be taken before the views check (which is silent anyway)
-                let out = &mut io.out;
+                let out = out();
                 let _ = write!(
                     out,
                     "{}|{}|{} {}|{}|{}|",
@@ -196,9 +195,9 @@ fn start_case(n: Option<u64>, kind: u8, io: &mut Io, announce: bool) -> Option<N
     }
     reset_case();
     if announce {
-        let _ = io.out.write_all(b"-||0 0||0|ok\n");
+        let _ = out().write_all(b"-||0 0||0|ok\n");
     }
-    let _ = io.out.flush();
+    let _ = out().flush();
     match kind {
         b't' => dispatch!(n, Tracked, io, [0 1 2 3 4 5 6 7 8 16 64]),
         b'b' => dispatch!(n, u8, io, [0 1 2 3 4 5 6 7 8 16 64 1000]),
@@ -227,7 +226,7 @@ fn dead_zone(io: &mut Io) -> Next {
         if let Some(Ok((n, kind))) = parse_case(&all) {
             return Next::Case(n, kind);
         }
-        let _ = io.out.write_all(b"bad-op\n");
+        let _ = out().write_all(b"bad-op\n");
     }
 }
 
@@ -257,7 +256,6 @@ fn main() {
     install_panic_hook();
     let mut io = Io {
         inp: std::io::stdin().lock(),
-        out: BufWriter::with_capacity(1 << 16, std::io::stdout().lock()),
         fam,
     };
 
@@ -270,13 +268,13 @@ fn main() {
                 next = match start_case(n, kind, &mut io, true) {
                     Some(nx) => nx,
                     None => {
-                        let _ = io.out.write_all(b"bad-op\n");
-                        let _ = io.out.flush();
+                        let _ = out().write_all(b"bad-op\n");
+                        let _ = out().flush();
                         dead_zone(&mut io)
                     }
                 };
             }
         }
     }
-    let _ = io.out.flush();
+    let _ = out().flush();
 }
